@@ -134,6 +134,22 @@ structure Tx where
   txResBodyHook : Nat := 0
   deriving Repr, Inhabited
 
+/-- what one call of zlib's inflate() returned: the abstracted external function of the decompression driver. The model of the
+    driver is run against a list of these (recorded from the real calls by the harness) or, in theorems, against ANY list. -/
+structure ZRes where
+  rc : Int                 -- Z_OK 0, Z_STREAM_END 1, Z_DATA_ERROR -3, Z_BUF_ERROR -5, ...
+  consumed : Nat           -- avail_in before - after
+  produced : Bytes         -- what was written to next_out
+  deriving Repr, DecidableEq, Inhabited
+
+/-- htp_decompressor_gzip_t: one layer of the decompressor chain -/
+structure Dec where
+  kind : Nat                 -- zlib_initialized: 0 = ended, 2 gzip, 3 deflate, 4 lzma
+  passthrough : Bool := false
+  restart : Nat := 0
+  buf : Bytes := []          -- the output buffer: GZIP_BUF_SIZE - avail_out bytes
+  deriving Repr, DecidableEq, Inhabited
+
 /-- one direction's chunk cursor and buffers -/
 structure Dir where
   status : Nat := STREAM_NEW
@@ -180,6 +196,10 @@ structure Conn where
   unsupported : Bool := false            -- the run entered behaviour the model does not cover
   reqDecompressor : Bool := false
   outDecompressor : Bool := false
+  outDecs : List Dec := []               -- connp->out_decompressor chain (head first)
+  zoracle : List ZRes := []              -- results of the inflate() calls still to come in this data call
+  zused : Bool := false                  -- an oracle was supplied for this data call
+  bombLimit : Nat := 1048576             -- cfg->compression_bomb_limit (copied at creation)
   deriving Repr, Inhabited
 
 def Conn.findTx (c : Conn) (uid : Nat) : Option Tx :=
